@@ -148,6 +148,17 @@ def run_burst(msgs, secs, pre_names, dir_missing, mode, preempt_at=None):
             os.path.exists = w_exists
             pathlib.Path.exists = w_pexists
             pathlib.Path.mkdir = w_mkdir
+            # every other call that touches the file system and that an implementation may use instead
+            os_names = ["link", "unlink", "remove", "rename", "replace", "makedirs", "mkdir", "open", "symlink", "stat", "listdir"]
+            os_real = {n: getattr(os, n) for n in os_names}
+
+            def wrap_os(fn):
+                def w(*a, **kw):
+                    hook()
+                    return fn(*a, **kw)
+                return w
+            for n in os_names:
+                setattr(os, n, wrap_os(os_real[n]))
             try:
                 utils.write_message(msgs[0], d)
                 if not state["done"]:
@@ -161,6 +172,8 @@ def run_burst(msgs, secs, pre_names, dir_missing, mode, preempt_at=None):
                 os.path.exists = real_exists
                 pathlib.Path.exists = real_pexists
                 pathlib.Path.mkdir = real_mkdir
+                for n in os_names:
+                    setattr(os, n, os_real[n])
     except Exception as e:  # noqa
         err = repr(e)
     finally:
@@ -170,6 +183,7 @@ def run_burst(msgs, secs, pre_names, dir_missing, mode, preempt_at=None):
 
 
 _REAL = {"exists": os.path.exists, "pexists": pathlib.Path.exists, "mkdir": pathlib.Path.mkdir}
+_REAL_OS = {n: getattr(os, n) for n in ["link", "unlink", "remove", "rename", "replace", "makedirs", "mkdir", "open", "symlink", "stat", "listdir"]}
 
 
 def restore_patches():
@@ -177,6 +191,8 @@ def restore_patches():
     os.path.exists = _REAL["exists"]
     pathlib.Path.exists = _REAL["pexists"]
     pathlib.Path.mkdir = _REAL["mkdir"]
+    for n, fn in _REAL_OS.items():
+        setattr(os, n, fn)
     if "open" in utils.__dict__:
         del utils.__dict__["open"]
     import datetime
@@ -289,35 +305,6 @@ def run(ctx):
         shutil.rmtree(tmp, ignore_errors=True)
     streams.append(t)
 
-    p = Stream("preempted-at-each-fs-call")
-    for _ in range(300 if ctx.thorough else 60):
-        msgs, secs, pre_names, dir_missing = gen_case(r)
-        if len(msgs) < 2:
-            msgs = msgs + [b"second"]
-        msgs = msgs[:3]
-        for at in range(1, 8):
-            if p.dist.get("deadlocked"):
-                break
-            res = run_with_timeout(lambda: run_burst(msgs, [0], pre_names, dir_missing, "preempt", preempt_at=at), 10)
-            if res is None:
-                # the code under test holds a lock across a file-system call: a nested (same-thread) pre-emption
-                # cannot model that; the stream is abandoned (no verdict from it), the other streams still decide
-                p.count("deadlocked")
-                restore_patches()
-                break
-            pre, after, err, tmp, d = res
-            case = {"messages": [hexb(payload_bytes(m)) for m in msgs], "pre_existing": [[a, b, hexb(c)] for a, b, c in pre_names],
-                    "dir_missing": dir_missing, "preempt_at_fs_call": at}
-            p.case(case)
-            if err:
-                p.fail(dict(case, error=err), "write_message raised %s" % err, "preempt/raises")
-            else:
-                bad = oracle(pre, msgs, after, dir_missing, d)
-                if bad:
-                    p.fail(dict(case, listing=sorted(after)), bad[1], "preempt/" + bad[0])
-            shutil.rmtree(tmp, ignore_errors=True)
-    streams.append(p)
-
     # the directory disappears between stores (cleaned up, rotated away, re-mounted) in a long running process:
     # "the directory is created when missing" holds for every store, not only for the first one
     lc = Stream("directory-lifecycle")
@@ -369,7 +356,70 @@ def run(ctx):
     sd = Stream("server-consumer-dispatch")
     for i in range(120 if ctx.thorough else 16):
         C14.inprocess_run(r, r.choice(["astm", "lis2a"]), sd, burst=(i % 2 == 0), n_clients=r.choice([3, 5, 8]))
+    # identical payloads (the same control sample measured twice, two instruments reporting the same thing): N messages
+    # are N files
+    from harness import servermain, gens
+    for i in range(40 if ctx.thorough else 6):
+        tmp = tempfile.mkdtemp(prefix="astm-c16s-")
+        outdir = os.path.join(tmp, "out")
+        os.makedirs(outdir)
+        k = r.choice([2, 3, 5])
+        texts = [b"H|\\^&|||same\rR|1|^^^GLU|5.5\rL|1|N", b"H|\\^&|||other\rL|1|N"]
+        plan, expected = [], []
+        for c in range(k):
+            t = r.randrange(0, 3)
+            plan.append((t, c, ("open",)))
+            for _s in range(r.choice([1, 2])):
+                text = texts[0] if r.random() < 0.7 else texts[1]
+                fr = gens.frame(1, text, True)
+                t += 1
+                plan.append((t, c, ("data", gens.ENQ)))
+                t += 1
+                plan.append((t, c, ("data", fr)))
+                t = t + 1 if i % 2 else (10 if _s == 0 else 18)   # odd runs: spread out; even runs: EOTs at common instants
+                plan.append((t, c, ("data", gens.EOT)))
+                expected.append(fr.decode("latin-1").encode("utf-8"))
+        servermain.run_server_main(["-o", outdir, "-m", "astm"], sorted(plan, key=lambda x: x[0]), settle=2)
+        files = sorted(open(os.path.join(outdir, fn), "rb").read() for fn in os.listdir(outdir))
+        case = {"connections": k, "sessions": len(expected), "identical_payloads": expected.count(expected[0])}
+        sd.case(case, nontrivial=True)
+        sd.count("identical-payloads")
+        if files != sorted(expected):
+            sd.fail(dict(case, files=len(files)), "%d sessions with (partly identical) payloads were completed, %d files exist "
+                    "/ their contents differ" % (len(expected), len(files)), "in-process/identical-payloads")
+        shutil.rmtree(tmp, ignore_errors=True)
     streams.append(sd)
+
+    # (last: a change that holds a lock across a file-system call leaves that lock held when the nested pre-emption is
+    # abandoned)
+    p = Stream("preempted-at-each-fs-call")
+    for _ in range(300 if ctx.thorough else 60):
+        msgs, secs, pre_names, dir_missing = gen_case(r)
+        if len(msgs) < 2:
+            msgs = msgs + [b"second"]
+        msgs = msgs[:3]
+        for at in range(1, 14):
+            if p.dist.get("deadlocked"):
+                break
+            res = run_with_timeout(lambda: run_burst(msgs, [0], pre_names, dir_missing, "preempt", preempt_at=at), 10)
+            if res is None:
+                # the code under test holds a lock across a file-system call: a nested (same-thread) pre-emption
+                # cannot model that; the stream is abandoned (no verdict from it), the other streams still decide
+                p.count("deadlocked")
+                restore_patches()
+                break
+            pre, after, err, tmp, d = res
+            case = {"messages": [hexb(payload_bytes(m)) for m in msgs], "pre_existing": [[a, b, hexb(c)] for a, b, c in pre_names],
+                    "dir_missing": dir_missing, "preempt_at_fs_call": at}
+            p.case(case)
+            if err:
+                p.fail(dict(case, error=err), "write_message raised %s" % err, "preempt/raises")
+            else:
+                bad = oracle(pre, msgs, after, dir_missing, d)
+                if bad:
+                    p.fail(dict(case, listing=sorted(after)), bad[1], "preempt/" + bad[0])
+            shutil.rmtree(tmp, ignore_errors=True)
+    streams.append(p)
 
     return streams
 
